@@ -15,6 +15,7 @@ rule by the Kani harnesses of C16. Decided on every path, for all byte values:
   * Pending only while the header is incomplete in the buffer (a header that arrived whole, alone or with payload behind
     it in the same chunk, is surfaced by that very poll).
 """
+import re
 import time
 import z3
 
@@ -166,7 +167,6 @@ def check(L, tier, log, samples):
     st = State()
     acc = Obj("stream::AcceptRecvStream<S, B>")
     # AcceptRecvStream::new: ty, id, expected = None (field order read from the constructor's MIR)
-    new_fn = ex.find_fn(r"^stream::<impl[^>]*>::new$|^stream::<impl at src/stream\.rs:27[0-9][^>]*>::new$") if False else None
     st.world.update({"bytes": [z3.BitVec(f"stream_byte_{i}", 8) for i in range(MAXB + 4)], "delivered": 0, "consumed": 0,
                      "script": [], "ended": False, "exhausted": False, "decoded": [], "decode_short": False})
     fields = field_indices(L)
@@ -321,9 +321,147 @@ def check(L, tier, log, samples):
     viols.sort(key=rank)
     samples.append({"paths": npaths[0], "finals": len(finals), "example_scripts": [" ".join(s.world["script"]) for s, _ in finals[:3]]})
     log(f"poll_type: {npaths[0]} poll paths, {len(finals)} final states, events<={events}, polls<={polls}, stream bytes<={MAXB}")
-    stats = {"states": npaths[0], "transitions": queries + ex.queries, "queries": queries + ex.queries, "solver_s": round(ex.solver_s, 2),
-             "witness": wit, "functions": sorted(ex.functions_used), "script_len": events, "wall_s": round(time.time() - t0, 1)}
+    exb, vb, nb, qb, wb = part_handover(L, tier, log)
+    viols += vb
+    wit.update(wb)
+    stats = {"states": npaths[0] + nb, "transitions": queries + ex.queries + qb, "queries": queries + ex.queries + qb, "solver_s": round(ex.solver_s + exb.solver_s, 2),
+             "witness": wit, "functions": sorted(ex.functions_used | exb.functions_used), "script_len": events, "wall_s": round(time.time() - t0, 1)}
     return viols, stats
+
+
+# ------------------------------------------------------------------------------------------------ part B
+
+def part_handover(L, tier, log):
+    """<BufRecvStream as RecvStream>::poll_data from an ARBITRARY state (eos flag symbolic, buffer holding a chunk or not):
+    bytes buffered behind a stream header are handed out first, unmodified, whatever else is known about the stream; only
+    with an empty buffer is the transport asked, and its answer is passed on (chunk copied whole; None sets eos)."""
+    def c_take_first(ex, st, key, argv, dest_ty, raw):
+        def some(ex, st, a):
+            ch = Obj("bytes::Bytes")
+            ch.attrs["tag"] = "buffered_chunk"
+            st.world["buffered"] = True
+            return ex.make_enum(dest_ty, "Some", [ch])
+
+        def none(ex, st, a):
+            st.world["buffered"] = False
+            return ex.make_enum(dest_ty, "None")
+        return [Case(None, some), Case(z3.BoolVal(True), none)]
+
+    def c_transport(ex, st, key, argv, dest_ty, raw):
+        inner = C.payload_type(dest_ty, "Ready") or "std::result::Result<std::option::Option<<S as quic::RecvStream>::Buf>, quic::StreamErrorIncoming>"
+        opt = C.payload_type(inner, "Ok") or "std::option::Option<<S as quic::RecvStream>::Buf>"
+
+        def mk(kind):
+            def ap(ex, st, a):
+                st.world["transport"] = kind
+                if kind == "pending":
+                    return ex.make_enum(dest_ty, "Pending")
+                if kind == "data":
+                    ch = Obj("<S as quic::RecvStream>::Buf")
+                    ch.attrs["tag"] = "transport_chunk"
+                    return ex.make_enum(dest_ty, "Ready", [ex.make_enum(inner, "Ok", [ex.make_enum(opt, "Some", [ch])])])
+                if kind == "fin":
+                    return ex.make_enum(dest_ty, "Ready", [ex.make_enum(inner, "Ok", [ex.make_enum(opt, "None")])])
+                e = Obj("quic::StreamErrorIncoming")
+                e.attrs["tag"] = "transport_error"
+                return ex.make_enum(dest_ty, "Ready", [ex.make_enum(inner, "Err", [e])])
+            return ap
+        return [Case(None if i == 0 else z3.BoolVal(True), mk(k)) for i, k in enumerate(("pending", "data", "fin", "error"))]
+
+    def c_remaining(ex, st, key, argv, dest_ty, raw):
+        def ap(ex, st, a):
+            n = z3.BitVec("transport_chunk_len", 64)
+            st.world["chunk_len"] = n
+            return n
+        return [Case(None, ap)]
+
+    def c_copy_to_bytes(ex, st, key, argv, dest_ty, raw):
+        def ap(ex, st, a):
+            out = Obj("bytes::Bytes")
+            src = C.deref(a[0])
+            out.attrs["tag"] = "copy_of:" + str(src.attrs.get("tag"))
+            out.attrs["len"] = a[1]
+            return out
+        return [Case(None, ap)]
+    con = [
+        (r"^BufList::take_first_chunk$", c_take_first),
+        (r"^S as RecvStream::poll_data$", c_transport),
+        (r"as Buf::remaining$", c_remaining),
+        (r"as Buf::copy_to_bytes$", c_copy_to_bytes),
+    ] + c08.base_contracts()
+    ex = E.make_executor(L, [], con)
+    st = State()
+    brs = Obj("stream::BufRecvStream<S, B>")
+    eos0 = z3.Bool("eos_before")
+    fn = ex.find_fn(r"^stream::<impl at src/stream\.rs[^>]*>::poll_data$")
+    text = "\n".join(s_ for b in fn.blocks.values() for s_ in b.stmts)
+    m = re.search(r"\(\(\*_1\)\.(\d+): bool\)", text)
+    if not m:
+        raise Inconclusive("BufRecvStream::poll_data: cannot find the eos flag")
+    eos_idx = int(m.group(1))
+    brs.fields[(None, eos_idx)] = Cell(eos0)
+    st.world["brs"] = Cell(brs)
+    E.call(ex, st, r"^stream::<impl at src/stream\.rs[^>]*>::poll_data$", [Ref(st.world["brs"]), Ref(Cell(Obj("Context")))])
+    outs = E.collect(ex, st)
+    viols = []
+    wit = {"B.buffered_chunk_delivered": False, "B.transport_chunk_delivered": False, "B.end_reported": False}
+    q = 0
+
+    def shape(ret):
+        if ret.discr.as_long() == 1:
+            return ("pending", None)
+        res = E.get_field(ret, ("Ready", 0))
+        if res.discr.as_long() == 1:
+            return ("error", E.get_field(res, ("Err", 0)))
+        o = E.get_field(res, ("Ok", 0))
+        if o.discr.as_long() == 0:
+            return ("none", None)
+        return ("some", E.get_field(o, ("Some", 0)))
+    for s, ret in outs:
+        if ret == ("panic",):
+            viols.append({"key": "c19.handover.panic", "what": "BufRecvStream::poll_data can panic", "model": {}})
+            continue
+        kind, val = shape(ret)
+        if "buffered" not in s.world:
+            # answered without looking at the buffer
+            q += 1
+            viols.append({"key": "c19.handover.buffered_payload_not_delivered_first",
+                          "what": "BufRecvStream::poll_data answers without handing out what is buffered (e.g. reports the end of the stream while "
+                                  "payload that arrived together with the stream header is still in the buffer)",
+                          "model": {"answer": kind, "eos_before": str(ex.model(s, z3.BoolVal(True)).eval(eos0, True))}})
+            continue
+        if s.world["buffered"]:
+            if kind != "some" or val.attrs.get("tag") != "buffered_chunk" or "transport" in s.world:
+                viols.append({"key": "c19.handover.buffered_payload_not_delivered_first",
+                              "what": "with a chunk in the buffer poll_data does not return exactly that chunk (or polls the transport first)",
+                              "model": {"answer": kind}})
+            else:
+                wit["B.buffered_chunk_delivered"] = True
+            continue
+        t = s.world.get("transport")
+        want = {"pending": "pending", "data": "some", "fin": "none", "error": "error"}.get(t)
+        if t is None or kind != want:
+            viols.append({"key": "c19.handover.transport_answer_not_passed_on", "what": "with an empty buffer the transport's answer is not what poll_data returns",
+                          "model": {"transport": t, "answer": kind}})
+            continue
+        if t == "data":
+            ln = val.attrs.get("len")
+            q += 1
+            if val.attrs.get("tag") != "copy_of:transport_chunk" or ln is None or ex.feasible(s, ln != s.world["chunk_len"]):
+                viols.append({"key": "c19.handover.transport_chunk_truncated", "what": "the transport's chunk is not copied whole", "model": {}})
+            else:
+                wit["B.transport_chunk_delivered"] = True
+        if t == "fin":
+            post = s.world["brs"].v.fields[(None, eos_idx)].v
+            q += 1
+            if ex.feasible(s, z3.Not(post)):
+                viols.append({"key": "c19.handover.end_not_recorded", "what": "the end of the stream is passed on without being recorded", "model": {}})
+            else:
+                wit["B.end_reported"] = True
+        if t == "error" and (val is None or val.attrs.get("tag") != "transport_error"):
+            viols.append({"key": "c19.handover.transport_error_changed", "what": "the transport's error is not passed on unchanged", "model": {}})
+    log(f"B BufRecvStream::poll_data: {len(outs)} paths")
+    return ex, viols, len(outs), q + ex.queries, wit
 
 
 def field_indices(L):
@@ -341,6 +479,8 @@ def field_indices(L):
 
 
 def replay_args(v):
+    if v["key"].startswith("c19.handover."):
+        return ("c19_payload_with_header", [])
     m = v.get("model", {})
     if "script" in m and "bytes" in m:
         extra = ["surfaced"] if v["key"].endswith("not_surfaced") else []
